@@ -1,4 +1,5 @@
 import GoLevel.Proofs.TableFF
+import GoLevel.Proofs.TableRange
 import GoLevel.Proofs.TableD
 import GoLevel.Proofs.Bytewise
 /-! Glue between `Table.write` and the shape-level lemmas: hypotheses bundles and the wrappers used by `Props/C13`. -/
@@ -70,10 +71,24 @@ theorem entriesInRange_none (t : TableR) : t.entriesInRange none none = t.entrie
     cases hb : t.blocksOf ix with
     | none => rfl
     | some bs =>
-      simp only [TableR.sliceBlock, ite_self, Option.map_some]
-      congr 2
-      have : (bs.zipIdx.map fun x : List KV × Nat => x.1) = bs := by simp
-      conv => rhs; rw [← this]
+      simp only [Option.map_some]
+      rw [mapEnds_id (TableR.sliceBlock t.cmp none none) bs (fun c _ => rfl)]
 
+/-- content of a range-restricted iterator over a written table -/
+theorem range_of_write (cfg : TableCfg) (hok : CfgOK cfg) (kvs : List KV) (hs : SmallKV kvs)
+    (hsorted : StrictSorted cfg.cmp kvs) (hk : TailKeysNonempty kvs)
+    (hsz : (Table.write cfg kvs).length < 2 ^ 32) (verify : Bool) (start limit : Option Bytes) :
+    ∃ t, Table.open cfg verify (Table.write cfg kvs) = some t ∧
+      t.entriesInRange start limit = some (kvs.filter (inRange cfg.cmp start limit)) := by
+  obtain ⟨cs, hfile, hflat, hshape⟩ := write_shape cfg kvs
+  rw [hfile] at hsz ⊢
+  have hfb : (closeFilter cfg (appended cfg kvs)).isSome = cfg.filter.isSome := by simp [closeFilter]
+  have hsh : cs = [[]] ∨ ChunksOK cfg cs [] := by
+    rcases hshape with ⟨_, h⟩ | ⟨_, h⟩
+    · exact Or.inl h
+    · exact Or.inr (chunksOK_of hflat h hsorted hk)
+  obtain ⟨t, ho, hr⟩ := range_written cfg hok.cmp hok.sep hok.succ hok.ck cs _ hfb hsz
+    (name_small cfg cs _ hfb hsz) verify hsh (hflat ▸ hs) start limit
+  exact ⟨t, ho, by rw [hr, hflat, sliceBlock_sorted hok.cmp start limit kvs hsorted]⟩
 
 end GoLevel.C13
